@@ -415,6 +415,13 @@ class SpecMixin:
             st.assume(o.n >= 0)
             st.assume(qall([k], z3.Select(o.lens, k) >= 0, pats=[z3.Select(o.lens, k)]))
             return st.alloc(o)
+        if ty.startswith("list[real[,") and ty.endswith("]]"):
+            m = int(ty[len("list[real[,"):-2])
+            o = HListArr2("real", fresh(prefix, z3.ArraySort(INT, z3.ArraySort(INT, arr_sort("real")))), fresh(prefix + "_lens", z3.ArraySort(INT, INT)), fresh(prefix + "_n", INT), zint(m))
+            k = fresh("k", INT)
+            st.assume(o.n >= 0)
+            st.assume(qall([k], z3.Select(o.lens, k) >= 0, pats=[z3.Select(o.lens, k)]))
+            return st.alloc(o)
         if ty == "str":
             o = HStr(fresh(prefix, arr_sort("int")), fresh(prefix + "_n", INT))
             k = fresh("k", INT)
